@@ -395,3 +395,139 @@ func inIvls(s []ivl, v int64) bool {
 	}
 	return false
 }
+
+// errNonNilEdges returns the edges on which error value ev is known to be non-nil: `ev != nil`
+// tests and true edges of errors.Is(ev, X) / errors.As(ev, X).
+func errNonNilEdges(ev ssa.Value) []core.Edge {
+	var out []core.Edge
+	if ev == nil {
+		return nil
+	}
+	for _, ce := range core.NilTestEdges(ev) {
+		if !ce.Val {
+			out = append(out, ce.E)
+		}
+	}
+	if refs := ev.Referrers(); refs != nil {
+		for _, u := range *refs {
+			if c, ok := u.(*ssa.Call); ok && core.IsCallTo(c, "errors.Is", "errors.As") && len(c.Call.Args) > 0 && c.Call.Args[0] == ev {
+				out = append(out, core.EdgesWhere(c, true)...)
+			}
+			// type assertion `_, ok := err.(*T)`: ok true => non-nil
+			if ta, ok := u.(*ssa.TypeAssert); ok && ta.CommaOk {
+				if tr := ta.Referrers(); tr != nil {
+					for _, x := range *tr {
+						if ex, ok := x.(*ssa.Extract); ok && ex.Index == 1 {
+							out = append(out, core.EdgesWhere(ex, true)...)
+						}
+					}
+				}
+			}
+		}
+	}
+	return out
+}
+
+// callErr returns the error result value of a call (nil if none or unused).
+func callErr(c ssa.CallInstruction) ssa.Value {
+	call, ok := c.(*ssa.Call)
+	if !ok {
+		return nil
+	}
+	res := call.Common().Signature().Results()
+	for i := res.Len() - 1; i >= 0; i-- {
+		if res.At(i).Type().String() == "error" {
+			return core.ResultOf(call, i)
+		}
+	}
+	return nil
+}
+
+// isErrorReturn: the return can only yield a non-nil error (fresh error, or behind an edge on
+// which the returned error value is known non-nil).
+func isErrorReturn(ret *ssa.Return) bool {
+	if len(ret.Results) == 0 {
+		return false
+	}
+	last := ret.Results[len(ret.Results)-1]
+	if last.Type().String() != "error" {
+		return false
+	}
+	if core.IsNilConst(last) {
+		return false
+	}
+	if isFreshError(last) {
+		return true
+	}
+	edges := errNonNilEdges(last)
+	if len(edges) == 0 {
+		return false
+	}
+	ok, _ := core.MustPass(ret, core.NewCut().AddEdge(edges...))
+	return ok
+}
+
+// successReturns lists the returns of fn that may report success.
+func successReturns(fn *ssa.Function) []*ssa.Return {
+	var out []*ssa.Return
+	for _, b := range fn.Blocks {
+		if ret, ok := b.Instrs[len(b.Instrs)-1].(*ssa.Return); ok && !isErrorReturn(ret) {
+			out = append(out, ret)
+		}
+	}
+	return out
+}
+
+func isSuccessReturnPred(fn *ssa.Function) func(ssa.Instruction) bool {
+	set := map[ssa.Instruction]bool{}
+	for _, r := range successReturns(fn) {
+		set[r] = true
+	}
+	return func(in ssa.Instruction) bool { return set[in] }
+}
+
+// externalInvokers: functions of package vm that call a value of type resource.EntryFunc (the
+// external-code invoker role; `refresh` today).
+func externalInvokers(w *core.World) map[*ssa.Function]bool {
+	out := map[*ssa.Function]bool{}
+	for _, fn := range w.FuncsIn("vm") {
+		for _, c := range core.Calls(fn) {
+			if core.CallName(c) == "dynamic:resource.EntryFunc" {
+				out[fn] = true
+			}
+		}
+	}
+	return out
+}
+
+// callsToSet returns the calls in fn whose static callee is in set.
+func callsToSet(fn *ssa.Function, set map[*ssa.Function]bool) []ssa.CallInstruction {
+	var out []ssa.CallInstruction
+	for _, c := range core.Calls(fn) {
+		if f := core.StaticCallee(c); f != nil && set[f] {
+			out = append(out, c)
+		}
+	}
+	return out
+}
+
+// fromResult reports whether v derives (Sources) from result idx of a call to one of names.
+func fromResult(v ssa.Value, idx int, names ...string) bool {
+	for _, s := range core.Sources(v) {
+		if c, i, ok := core.ExtractOf(s); ok && i == idx && core.IsCallTo(c, names...) {
+			return true
+		}
+	}
+	return false
+}
+
+// handlerByName returns the opcode handler for the named opcode.
+func handlerByName(w *core.World, r *core.Report, name string) *ssa.Function {
+	hs, _, _ := opcodeHandlers(w, r)
+	for v, n := range opcodeNames(w) {
+		if n == name {
+			return hs[v]
+		}
+	}
+	return nil
+}
